@@ -10,7 +10,8 @@ TILDE = "~"
 # under NFC), compatibility code points whose NFC/NFKC image *is* in cp1252 (KELVIN, ANGSTROM, Greek
 # question mark, OHM, Greek mu, fi-ligature, fullwidth A), C1 controls and a zero-width space
 OUTSIDE = ("\u0100\u0141\u03bb\u0416\u4e2d\U0001f600\x81\x8d\x90\u200b"
-           "\u0301\u0308\u0300\u0327\u030a\u0301\u0308\u212a\u212b\u037e\u2126\u03bc\ufb01\uff21")
+           "\u0301\u0308\u0300\u0327\u030a\u0301\u0308\u212a\u212b\u037e\u2126\u03bc\ufb01\uff21"
+           "\x80\x85\x9f\ud800\udfff\ufffd\ufeff\u00ad")
 
 
 def rand_int(rng, kind, allow_over=False):
